@@ -29,7 +29,15 @@ class CountingLogger(Logger):
         return len(self.records)
 
 
-def mk_market(tick=1.0, price=10.0, chunk=5, logger=True, market_id=0):
+def mk_market(tick=1.0, price=10.0, chunk=5, logger=True, market_id=0, index=False):
+    if index:
+        # an index market (no components needed for book events): it is a Market and accepts, rounds, matches and records orders like any other
+        from pams.index_market import IndexMarket
+        m = IndexMarket(market_id=market_id, prng=random.Random(0), simulator=Sim(), name=f"m{market_id}", logger=CountingLogger() if logger else None)
+        m.chunk_size = chunk
+        m.setup({"tickSize": tick, "marketPrice": price, "markets": []})
+        m._update_time(next_fundamental_price=price)
+        return m
     m = Market(market_id=market_id, prng=random.Random(0), simulator=Sim(), name=f"m{market_id}", logger=CountingLogger() if logger else None)
     m.chunk_size = chunk
     m.setup({"tickSize": tick, "marketPrice": price})
@@ -40,7 +48,7 @@ def mk_market(tick=1.0, price=10.0, chunk=5, logger=True, market_id=0):
 def market_history(seed, max_events=40, tick=1.0, prices=(8, 12), offgrid=False, after_event=None):
     """a random single-market history: adds (limit/market, ttl), cancels, clock ticks, running toggles, a round after every book event when running"""
     rng = random.Random(seed)
-    m = mk_market(tick=tick)
+    m = mk_market(tick=tick, index=(seed % 13 == 6))
     m._is_running = rng.random() < 0.6
     live = []
     events = []
